@@ -22,6 +22,8 @@ OPS = ["next", "prev", "first", "last", "clear", "seek", "seek_index", "copy"]
 def drive_case(rng, a, th, tracked, sample_lists, nops, cmap, tmap, script=None):
     """run a navigation history on the real library, return the trace case"""
     tables = gen.build_tables(a, cmap, tmap)
+    if rng.random() < 0.4:
+        gen.add_user_flags(tables, rng)      # user flag bits never matter
     ts = tables.tree_sequence()
     a2 = gen.with_index(a, tables)
     kw = dict(root_threshold=th, sample_lists=sample_lists)
